@@ -10,6 +10,7 @@ import (
 	"encoding/json"
 	"errors"
 	"fmt"
+	"net/url"
 	"os"
 	"regexp"
 	"runtime/debug"
@@ -132,6 +133,11 @@ type wrapE struct {
 	Name  string
 }
 
+// Stringers that misbehave when String() is called directly (fmt recovers from these)
+type valStringer struct{ s string }
+
+func (v valStringer) String() string { return "V:" + v.s } // value receiver: a nil *valStringer panics
+
 type withPriv struct {
 	Name string
 	priv string
@@ -208,6 +214,16 @@ func special(name string) any {
 		return map[string]any{"a": prodE{Title: "t"}, "k": &prodE{Title: "u"}, "Inner": wrapE{Name: "w"}}
 	case "wrapped-embedded-nil-ptr":
 		return wrapE{Name: "w"}
+	case "panicking-stringer":
+		return panicker{}
+	case "nil-url":
+		return (*url.URL)(nil)
+	case "nil-valrecv-stringer":
+		return (*valStringer)(nil)
+	case "slice-with-nil-stringer":
+		return []*valStringer{{"a"}, nil, {"c"}}
+	case "map-with-nil-stringers":
+		return map[string]any{"a": (*url.URL)(nil), "k": (*valStringer)(nil), "p": panicker{}, "e": error(nil)}
 	case "unexported":
 		return withPriv{Name: "n", priv: "p", in: &withPriv{Name: "in"}}
 	case "unexported-ptr":
@@ -259,7 +275,7 @@ func special(name string) any {
 // Not in the domain: a map[string]any or []any that contains ITSELF. Printing such a value
 // overflows the stack inside the standard library's fmt (as in any Go program); pointer cycles
 // between structs - the realistic shape of cyclic data - are covered.
-var specials = []string{"cyclic-ptr", "cyclic-2", "cyclic-in-map", "cyclic-via-value-field", "cyclic-via-value-slice", "cyclic-via-interface", "cyclic-via-embedded", "cyclic-via-map-of-ptr", "cyclic-via-array", "cyclic-value-root", "embedded-nil-ptr", "embedded-nil-ptr-ptr", "slice-of-embedded-nil-ptr", "map-of-embedded-nil-ptr", "wrapped-embedded-nil-ptr", "unexported", "unexported-ptr", "map-int-keys", "map-struct-keys", "map-any-keys", "func", "chan", "stringer", "typed-nil-ptr", "typed-nil-map", "typed-nil-slice", "nested-ptr", "array-of-struct", "slice-of-nil", "big-uint", "complex", "bytes", "error", "deep"}
+var specials = []string{"cyclic-ptr", "cyclic-2", "cyclic-in-map", "cyclic-via-value-field", "cyclic-via-value-slice", "cyclic-via-interface", "cyclic-via-embedded", "cyclic-via-map-of-ptr", "cyclic-via-array", "cyclic-value-root", "embedded-nil-ptr", "embedded-nil-ptr-ptr", "slice-of-embedded-nil-ptr", "map-of-embedded-nil-ptr", "wrapped-embedded-nil-ptr", "panicking-stringer", "nil-url", "nil-valrecv-stringer", "slice-with-nil-stringer", "map-with-nil-stringers", "unexported", "unexported-ptr", "map-int-keys", "map-struct-keys", "map-any-keys", "func", "chan", "stringer", "typed-nil-ptr", "typed-nil-map", "typed-nil-slice", "nested-ptr", "array-of-struct", "slice-of-nil", "big-uint", "complex", "bytes", "error", "deep"}
 
 func dataOf(c Case) any {
 	m := map[string]any{}
@@ -433,6 +449,16 @@ var positions = []string{
 	`<my-comp :p="v"></my-comp>`,
 	`<p>{{ v | file }}</p>`,
 	`<p v-once>{{ v }}</p><p v-pre>{{ v }}</p>`,
+	// unknown functions whose names sort after / before every registered one, one call site per
+	// position (the first failing site ends the render)
+	`<p>{{ zeta(v) }}</p>`,
+	`<p>{{ v | zzzfilter }} {{ aaa(v) }}</p>`,
+	`<i v-if="zzz(v)">x</i>`,
+	`<i v-if="yes" :title="zeta(v) + 1">x</i>`,
+	`<b v-show="zip(v) > 1">y</b>`,
+	`<b :class="{k: zzz(v)}" :style="{color: zeta(v)}">y</b>`,
+	`<p>{{ zzz(v) + 1 }} {{ 1 + aaa(v) }}</p>`,
+	`<p v-for="x in zlist(v)">{{ x }}</p><template include="c.vuego" :p="zeta(v)"></template>`,
 	`<p>{{ joinn(2, "a", "b") }} {{ joinn(v, "a") }} {{ joinn(1, v, v) }} {{ v | joinn("x") }} {{ joinn(3) }} {{ sumall("s", 1, 2) }} {{ sumall(v, v) }} {{ sumall("s", v, 1) }} {{ v | sumall }} {{ ctxonly(v) }} {{ v | ctxonly }}</p><i :title="joinn(1, v)" v-if="sumall(v, 1)">x</i>`,
 	`<p>{{ v.CreatedBy }} {{ v.ID }} {{ v.title }} {{ v.BaseE }} {{ v.BaseE.CreatedBy }} {{ v.Inner.CreatedBy }} {{ v.a.CreatedBy }} {{ v.k.ID }}</p><i v-for="x in v">{{ x.CreatedBy }} {{ x.title }} {{ x.ID }}</i><b v-if="v.CreatedBy">c</b><u :title="v.ID" v-show="v.Inner.ID">u</u>`,
 }
